@@ -43,9 +43,11 @@ theorem C16_failure_modes (m : FailMode) :
       | .stall => 504 | .clientCancel => 499 | .garbage => 500 := by
   cases m <;> rfl
 
-/-- **C16, relay.** The client gets the backend's status and body unchanged, every end-to-end header with all
-its values in order, and none of the stdlib's hop-by-hop headers. (Identity of the *streamed bytes* for every
-size and chunking is stdlib behaviour: assumed, exercised.) -/
+/-- **C16, relay.** Content is in the two header clauses: every end-to-end header reaches the client with all its
+values in order, and none of the stdlib's hop-by-hop headers does. The status and body clauses only record that
+the model passes the status code and the (abstract) body descriptor through untouched — `relay` is a record
+update; that the *streamed bytes* are identical for every size and chunking is stdlib behaviour: assumed,
+exercised by the correspondence run (digests), not proved. -/
 theorem C16_relay_identity (b : Resp) :
     (relay b).status = b.status ∧ (relay b).body = b.body ∧
     (∀ k, k ∉ hopHeaders → k ∉ named b.header → (relay b).header.lookup k = b.header.lookup k) ∧
@@ -69,7 +71,32 @@ theorem C16_listener_paired (o : Outcome) :
     (stateListener o).1 = [.connected, .disconnected] ∧ (stateListener o).2 = o := by
   cases o <;> simp [stateListener, stateListenerBody, execBody]
 
-/-- over any sequence of requests: every `connected` is followed by exactly one `disconnected` -/
+/-- **C16, failure after the response head** (reset after the head, abort during body copy). The backend
+delivers `sent < bodyLen` body bytes. Then: the head the client was already sent is the backend's (status, end-to-end
+headers — `relay b`), the transfer is not completed, the handler ends by panicking (`http.ErrAbortHandler`, which the
+server recovers) — and the state listener still reports exactly `connected, disconnected`, passing the panic on. -/
+theorem C16_abort_after_head (b : Resp) (bodyLen sent : Nat) (h : sent < bodyLen) :
+    (relayOutcome b bodyLen (some sent)).1 = relay b ∧ (relayOutcome b bodyLen (some sent)).1.status = b.status ∧
+    (relayOutcome b bodyLen (some sent)).2.1 = false ∧
+    (∃ v, (relayOutcome b bodyLen (some sent)).2.2 = .panic v) ∧
+    (stateListener (relayOutcome b bodyLen (some sent)).2.2).1 = [.connected, .disconnected] ∧
+    (stateListener (relayOutcome b bodyLen (some sent)).2.2).2 = (relayOutcome b bodyLen (some sent)).2.2 := by
+  have e : relayOutcome b bodyLen (some sent) = (relay b, false, .panic "net/http: abort Handler") := by
+    simp [relayOutcome, h]
+  rw [e]
+  exact ⟨rfl, by simp [relay], rfl, ⟨_, rfl⟩, (C16_listener_paired _).1, (C16_listener_paired _).2⟩
+
+/-- and a complete transfer ends with a normal return -/
+theorem C16_complete_transfer (b : Resp) (bodyLen : Nat) :
+    relayOutcome b bodyLen none = (relay b, true, .ret) ∧
+    (∀ sent, bodyLen ≤ sent → relayOutcome b bodyLen (some sent) = (relay b, true, .ret)) := by
+  refine ⟨rfl, fun sent hs => ?_⟩
+  simp [relayOutcome, Nat.not_lt.mpr hs]
+
+/-- over any sequence of requests: every `connected` is followed by exactly one `disconnected`. (Sequential
+composition. For concurrent requests — the `presp` op — pairing *per request* is `C16_listener_paired` applied to
+each call: `ServeHTTP` shares no state between calls; no interleaving semantics is modelled, the driver's expected
+`k` connected / `k` disconnected is this theorem on `k` outcomes.) -/
 theorem C16_listener_sequence (os : List Outcome) :
     os.flatMap (fun o => (stateListener o).1) = (List.replicate os.length [Event.connected, Event.disconnected]).flatten := by
   induction os with
